@@ -197,6 +197,7 @@ func ReadFAT(kind string, b backend.Storage, size, start, blocksize int64) (file
 // SqOpts is the JSON-able form of squashfs.FinalizeOptions.
 type SqOpts struct {
 	Comp          string `json:"comp"` // "", none, gzip, xz, lz4, zstd
+	Level         int    `json:"level,omitempty"` // gzip compression level (0 = zlib "no compression": every block is then stored raw)
 	NoFragments   bool   `json:"nofrag,omitempty"`
 	NoCompInodes  bool   `json:"nci,omitempty"`
 	NoCompData    bool   `json:"ncd,omitempty"`
@@ -213,7 +214,7 @@ func (o SqOpts) Options() squashfs.FinalizeOptions {
 	}
 	switch o.Comp {
 	case "gzip":
-		fo.Compression = &squashfs.CompressorGzip{}
+		fo.Compression = &squashfs.CompressorGzip{CompressionLevel: uint32(o.Level)}
 	case "xz":
 		fo.Compression = &squashfs.CompressorXz{}
 	case "lz4":
